@@ -82,7 +82,7 @@ def prog_lvl_reach(db):
 def prog_lvl_copy(db):
     val = {}
     for (x,) in db["a"]:
-        val[(x,)] = "L2" if x % 2 == 0 else "L1"
+        val[(x,)] = "L2" if x % 2 == 0 else "L1"      # (x % 2 = 0 is sign independent)
     changed = True
     while changed:
         changed = False
@@ -98,7 +98,8 @@ def prog_lvl_copy(db):
 def prog_two_keys(db):
     out = {}
     for x, y in db["e"]:
-        k = (x % 2, y % 2)
+        cm = lambda v: v - 2 * int(v / 2)      # C remainder (truncating division)
+        k = (cm(x), cm(y))
         v = sgn(x - y)
         out[k] = sign_lub(out[k], v) if k in out else v
     return out
